@@ -269,5 +269,6 @@ def check(tier):
     ]
     for name, m in mut:
         ck.add_mutant(name, m, "options", "harness.C07", "option_job", dict(cases=cs[::5]), fresh=True)
+    ck.validate = ['dispatch']
     ck.run()
     return ck.finish(replay=REPLAY)
